@@ -60,7 +60,7 @@ def gen_A(rng, knobs=None):
     ids = Ids()
     nmod = knobs.get("nmod") or rng.choice([1, 2, 2, 3, 3])
     display = knobs.get("display") or rng.choice(DISPLAYS)
-    internals = knobs.get("proc_internals", rng.random() < 0.2)
+    internals = knobs.get("proc_internals", rng.random() < 0.3)
     mods = []
     seen_names = set()          # with the "clash" knob later modules reuse the names of earlier ones
     for mname in _pick_unique(rng, MOD_NAMES, set(), nmod):
@@ -71,34 +71,37 @@ def gen_A(rng, knobs=None):
 
         def perm():
             return rng.choice(["public", "public", "private", default])
+        members = set()         # names used inside the module's types / procedures: later ones reuse them
         procs = []
         for n in _pick_unique(rng, PROC_NAMES, used, rng.choice([1, 2, 3] if prefer or knobs.get('clash') else [0, 1, 2, 3]), prefer):
             p = {"id": ids(), "kind": rng.choice(["function", "subroutine"]), "name": n, "perm": perm(), "kids": []}
             if rng.random() < 0.35:
-                for ln in _pick_unique(rng, LOCAL_NAMES, set(), rng.choice([1, 2])):
+                for ln in _pick_unique(rng, LOCAL_NAMES, set(), rng.choice([1, 2]), members):
                     p["kids"].append({"id": ids(), "kind": "var", "name": ln, "perm": default, "kids": []})
             if rng.random() < 0.25:
-                for inn in _pick_unique(rng, INNER_NAMES, {n.lower()}, rng.choice([1, 2])):
+                for inn in _pick_unique(rng, INNER_NAMES, {n.lower()}, rng.choice([1, 2]), members):
                     p["kids"].append({"id": ids(), "kind": "subroutine", "name": inn, "perm": default, "kids": []})
             if rng.random() < 0.1:
                 lt = {"id": ids(), "kind": "type", "name": "local_t", "perm": default, "kids": []}
                 lt["kids"].append({"id": ids(), "kind": "var", "name": "q", "perm": "public", "kids": []})
                 p["kids"].append(lt)
+            members |= {k["name"].lower() for k in p["kids"]}
             procs.append(p)
         subs = [p for p in procs if p["kind"] == "subroutine"]
         funs = [p for p in procs if p["kind"] == "function"]
         types = []
-        for n in _pick_unique(rng, TYPE_NAMES, used, rng.choice([1, 2] if prefer or knobs.get('clash') else [0, 1, 2]), prefer):
+        for n in _pick_unique(rng, TYPE_NAMES, used, rng.choice([1, 2] if prefer or knobs.get('clash') else [0, 1, 2, 2]), prefer):
             t = {"id": ids(), "kind": "type", "name": n, "perm": perm(), "kids": []}
-            for cn in _pick_unique(rng, COMP_NAMES, set(), rng.choice([0, 1, 2, 3])):
+            for cn in _pick_unique(rng, COMP_NAMES, set(), rng.choice([1, 2, 3] if members else [0, 1, 2, 3]), members):
                 t["kids"].append({"id": ids(), "kind": "var", "name": cn,
                                   "perm": rng.choice(["public", "public", "private"]), "kids": []})
-            if subs and rng.random() < 0.6:
+            if subs and rng.random() < 0.7:
                 cu = {c["name"].lower() for c in t["kids"]}
-                for bn in _pick_unique(rng, BOUND_NAMES, cu, rng.choice([1, 2])):
+                for bn in _pick_unique(rng, BOUND_NAMES, cu, rng.choice([1, 2]), members):
                     t["kids"].append({"id": ids(), "kind": "bound", "name": bn,
                                       "perm": rng.choice(["public", "public", "private"]), "kids": [],
                                       "impl": rng.choice(subs)["name"]})
+            members |= {k["name"].lower() for k in t["kids"]}
             types.append(t)
         gens = []
         for n in _pick_unique(rng, GEN_NAMES, used, rng.choice([0, 0, 1, 2]), prefer):
